@@ -489,6 +489,10 @@ func (tx *Transaction) checkSign(blockHeight int64) bool {
 	if tx.GetSignature() == nil {
 		return false
 	}
+	// a signature whose type names no sender address is not a transaction signature
+	if _, ok := tx.fromAddr(); !ok {
+		return false
+	}
 	return CheckSign(data, string(tx.Execer), tx.GetSignature(), blockHeight)
 }
 
@@ -605,9 +609,30 @@ func (tx *Transaction) GetTxFee() int64 {
 }
 
 // From 交易from地址
+// 签名类型中的地址ID没有可用的地址驱动时, 返回空字符串
 func (tx *Transaction) From() string {
-	return address.PubKeyToAddr(ExtractAddressID(tx.GetSignature().GetTy()),
-		tx.GetSignature().GetPubkey())
+	addr, _ := tx.fromAddr()
+	return addr
+}
+
+// fromAddr derives the sender address from the public key with the address driver
+// named by the address id bits of Signature.Ty. Neither is covered by anything at
+// this point (mempool.checkTx and the rpc decoder ask for the sender of a
+// transaction whose signature has not been checked), so an id without a registered
+// driver, or a driver that cannot derive an address from this key (utxo: "implement
+// me", eth: empty key), is reported with ok == false instead of a panic.
+func (tx *Transaction) fromAddr() (addr string, ok bool) {
+	sign := tx.GetSignature()
+	d, err := address.LoadDriver(ExtractAddressID(sign.GetTy()), -1)
+	if err != nil {
+		return "", false
+	}
+	defer func() {
+		if r := recover(); r != nil {
+			addr, ok = "", false
+		}
+	}()
+	return d.PubKeyToAddr(sign.GetPubkey()), true
 }
 
 // 检查交易是否过期，过期返回true，未过期返回false
